@@ -1,7 +1,7 @@
 """Builds the corpus against /repo's working tree, runs the real code and the Lean driver, collects results."""
 import hashlib, json, os, re, shutil, subprocess, sys, time, fcntl
 
-import gen, render, dumpparse
+import gen, render, dumpparse, rustexpr
 
 VERIF = os.environ.get("VERIF_ROOT") or os.path.dirname(os.path.dirname(os.path.abspath(__file__)))
 REPO = os.environ.get("VERIF_REPO", "/repo")
@@ -151,9 +151,13 @@ def ensure_driver():
         raise RuntimeError("lake build bbdriver failed:\n" + p.stdout[-3000:])
 
 
-def build_and_run(tier, seed, profiles=("dev",)):
+def build_and_run(tier, seed, profiles=("dev",), decls_override=None):
     """returns the results dict (also cached on disk)"""
     os.makedirs(WORK_ROOT, exist_ok=True)
+    if decls_override is not None:
+        res = _build_and_run(tier, seed, profiles, decls_override)
+        res["key"] = "replay"
+        return res
     key = "%s-%s-%s-%d-%s" % (repo_key(), framework_key(), tier, seed, "+".join(profiles))
     cache = os.path.join(WORK_ROOT, "results-%s.json" % key)
     lock = open(os.path.join(WORK_ROOT, "lock"), "w")
@@ -224,7 +228,7 @@ def decl_header(i):
     return h
 
 
-def cargo_iterate(ws, cargo_args, sources, alive, what, max_iter=8, env=None):
+def cargo_iterate(ws, cargo_args, sources, alive, what, max_iter=8, env=None, downgrade=None):
     """Runs cargo with `cargo_args`; on errors drops the declarations they belong to and retries.
     sources(alive) writes all files and returns ranges_by_file. Returns (alive, dropped{name:[msgs]}, unattributed, ok)"""
     dropped = {}
@@ -249,16 +253,22 @@ def cargo_iterate(ws, cargo_args, sources, alive, what, max_iter=8, env=None):
         if not bad:
             log(what, "failed without attributable errors", p.stderr[-1500:])
             return alive, dropped, unattributed or [["cargo failed", p.stderr[-1500:]]], False
+        if downgrade is not None:
+            # first give the declaration a second chance with a reduced run function (e.g. without const items)
+            kept = set(n for n in bad if downgrade(n, dropped.get(n, [])))
+            for n in kept:
+                dropped.pop(n, None)
+            bad = bad - kept
         alive = alive - bad
         log("%s iteration %d: dropped %d declarations, %d remain" % (what, it, len(bad), len(alive)))
     return alive, dropped, unattributed, False
 
 
-def _build_and_run(tier, seed, profiles):
+def _build_and_run(tier, seed, profiles, decls_override=None):
     t_start = time.time()
     timing = {}
     ensure_driver()
-    decls = gen.generate(seed, tier)
+    decls = decls_override if decls_override is not None else gen.generate(seed, tier)
     table = {d["name"]: d for d in decls}
     chunks = chunk_decls(decls)
     ws = os.path.join(WORK_ROOT, "ws")
@@ -291,6 +301,13 @@ def _build_and_run(tier, seed, profiles):
         write(os.path.join(ws, "nostd", "src", "lib.rs"), "#![no_std]\n")
 
     surfaces = {}
+    const_failed = {}
+
+    def downgrade_const(name, errs):
+        if name in const_failed:
+            return False
+        const_failed[name] = errs[:4]
+        return True
 
     def write_sources(alive, with_gen):
         ranges_by_file = {}
@@ -308,7 +325,7 @@ def _build_and_run(tier, seed, profiles):
                 for d in ds:
                     surf = set(x[1] for x in surfaces.get(d["name"], []))
                     start = len(lines) + 1
-                    lines.extend(render.render_run_fn(d, table, surf))
+                    lines.extend(render.render_run_fn(d, table, surf, with_const=(d["name"] not in const_failed)))
                     fn_ranges[d["name"] + "\x00fn"] = (start, len(lines))
             lines.append("pub fn run_all(o: &mut support::Out) {")
             if with_gen:
@@ -402,8 +419,46 @@ def _build_and_run(tier, seed, profiles):
             model.setdefault(ws_[1], {})["surface"] = [x.split(":") for x in ws_[2:] if x]
         elif ws_[0] == "builder":
             model.setdefault(ws_[1], {})["builder"] = " ".join(ws_[2:])
+        elif ws_[0] == "body":
+            model.setdefault(ws_[1], {}).setdefault("bodies", {})[ws_[2]] = " ".join(ws_[3:])
         elif ws_[0].startswith("bad-"):
             model.setdefault("_bad", {}).setdefault("lines", []).append(line)
+
+    # ---- AST comparison: the bodies of the real expansion, translated, against the bodies the model generates ----------
+    ast = {"equal": 0, "differ": [], "untranslatable": [], "compared_decls": 0}
+    for name, text in dump_texts.items():
+        d = table[name]
+        mb = model.get(name, {}).get("bodies")
+        if d["kind"] != "bitfield" or not mb:
+            continue
+        ast["compared_decls"] += 1
+        try:
+            items = dumpparse.parse_dump(text)
+        except Exception as e:  # noqa
+            ast["untranslatable"].append([name, "*", "dump parse failed: %s" % e])
+            continue
+        real = {}
+        for it in items:
+            if it.kind == "fn" and it.impl_header == [name]:
+                try:
+                    real[it.name] = rustexpr.body_sexpr(it.body)
+                except Exception as e:  # noqa
+                    real[it.name] = "(opaque parse-error %s)" % str(e).replace("(", "[").replace(")", "]")
+        for item, msx in mb.items():
+            key = item[2:] if item.startswith("r#") else item
+            rsx = real.get(key)
+            if rsx is None:
+                ast["differ"].append([name, item, "<missing in the expansion>", msx[:300]])
+            elif "(opaque" in rsx:
+                ast["untranslatable"].append([name, item, rsx[:300]])
+            elif rustexpr.compare(rsx, msx):
+                ast["equal"] += 1
+            else:
+                ast["differ"].append([name, item, rsx[:600], msx[:600]])
+    ast["differ_count"] = len(ast["differ"])
+    ast["untranslatable_count"] = len(ast["untranslatable"])
+    ast["differ"] = ast["differ"][:300]
+    ast["untranslatable"] = ast["untranslatable"][:100]
 
     # ---- phase C: runner ----------------------------------------------------------------------------
     t0 = time.time()
@@ -414,7 +469,8 @@ def _build_and_run(tier, seed, profiles):
     run_unattr = []
     for prof in profiles:
         args = ["build", "-p", "runner"] + (["--release"] if prof == "release" else [])
-        run_alive, dropped, run_unattr, ok = cargo_iterate(ws, args, lambda a: write_sources(a, True), run_alive, "runner-" + prof)
+        run_alive, dropped, run_unattr, ok = cargo_iterate(ws, args, lambda a: write_sources(a, True), run_alive, "runner-" + prof,
+                                                           downgrade=downgrade_const)
         run_dropped.update(dropped)
         if not ok:
             runner_fail = "runner build failed (%s)" % prof
@@ -525,6 +581,8 @@ def _build_and_run(tier, seed, profiles):
         "surfaces": {k: [list(x) for x in v] for k, v in surfaces.items()},
         "token_scan": token_scan,
         "chains": chains,
+        "ast": ast,
+        "const_failed": const_failed,
         "probes": probes_res,
         "const_ok": const_ok,
         "nostd": nostd_res,
